@@ -239,6 +239,26 @@ class Ctx:
             self.tie_break("a property theorem depends on a non-allowed axiom or lacks Print Assumptions")
             self.violation("proof", "theorem not closed / unexpected axioms", {"theorems": thm}, False)
             return False
+        if not self.quick():
+            # thorough tier: the independent checker re-checks the compiled property file and everything it depends on, and lists the
+            # axioms of the whole closure (standard-library ones included)
+            p = subprocess.run(["timeout", "3600", "coqchk", "-o", "-silent", "-Q", COQ, "V", f"V.props.{prop}"], capture_output=True, text=True)
+            out = p.stdout + p.stderr
+            m = re.search(r"\* Axioms:(.*?)\n\s*\n\* Constants/Inductives relying on type-in-type:(.*?)\n\s*\n\* Constants/Inductives relying on unsafe \(co\)fixpoints:(.*?)\n\s*\n"
+                          r"\* Inductives whose positivity is assumed:(.*?)\n", out + "\n\n", re.S)
+            self.cov["coqchk"] = {"cmd": f"coqchk -o -silent -Q coq V V.props.{prop}", "exit": p.returncode, "summary": out[-900:]}
+            self.cov["checker_cmd"] += f" && coqchk -o -silent -Q coq V V.props.{prop}"
+            bad_axioms = []
+            if m:
+                axioms = [a.strip() for a in m.group(1).replace("<none>", "").split("\n") if a.strip()]
+                bad_axioms = [a for a in axioms if a.split(".")[-1] not in {x.split(".")[-1] for x in ALLOWED_AXIOMS}]
+                unsafe = [g.strip() for g in (m.group(2), m.group(3), m.group(4)) if g.strip() and "<none>" not in g]
+            else:
+                unsafe = ["coqchk summary not found"]
+            if p.returncode != 0 or bad_axioms or unsafe:
+                self.tie_break("coqchk rejects the compiled development or reports axioms / unsafe constructs")
+                self.violation("proof", f"coqchk: exit {p.returncode}, axioms {bad_axioms}, unsafe {unsafe}", {"coqchk": out[-2000:]}, False)
+                return False
         return True
 
     # -- Coq: evaluate the model on cases ------------------------------------------------------
